@@ -15,7 +15,8 @@ REQUIRED_MONITORS = ["markers@stab_plot(function)", "markers@cluster_plot(functi
 ALL_STATES = ["hide_poles=True", "hide_poles=False", "with covariance error bars", "freqlim given", "step=1", "step=2", "step=3", "more rows than orders", "more orders than rows",
               "empty column", "no stable pole", "nSv=all", "nSv<all"]
 REQUIRED_STATES = ["hide_poles=True", "hide_poles=False", "with covariance error bars", "freqlim given", "step=2", "more rows than orders", "more orders than rows", "nSv=all", "nSv<all", "column-major tables",
-                   "earlier figures left open", "49 or more pole slots", "several objects of one class and name plotted in one process"]
+                   "earlier figures left open", "49 or more pole slots", "several objects of one class and name plotted in one process",
+                   "retained poles with a value of exactly zero", "labels stored as bool / int8 / uint8 / int32 / float"]
 RULE = ("random pole / label tables up to 60 orders, non-square, any NaN pattern, labels 0/1, step 1..3 at function level, freqlim, with/without covariance; results "
         "of real SSIcov / pLSCF / FDD runs through the classes' plot methods; the data of the matplotlib artists on the returned axes (Agg) are read back: green "
         "'o' Line2D = multiset {(Fn[i,j], j*step): Lab=1}, red PathCollection = {(Fn[i,j], j*step): Lab=0}, cluster diagram with Xi as ordinate; CMIF "
@@ -103,6 +104,20 @@ def make_tables(rng):
     Lab = (rng.random((nr, no)) < rng.choice([0.0, 0.3, 0.6])).astype(int)
     Lab[:, 0] = 0
     Lab[mask] = 0
+    make_tables.special = []
+    if rng.random() < 0.15:
+        # legal retained poles with a value of exactly zero: an undamped pole (xi = 0), a rigid-body pole (f = 0)
+        fin_ = np.argwhere(~mask)
+        for i_, j_ in fin_[rng.permutation(len(fin_))[:3]]:
+            if rng.random() < 0.5:
+                Xi[i_, j_] = 0.0
+            else:
+                Fn[i_, j_] = 0.0
+        if len(fin_):
+            make_tables.special.append("retained poles with a value of exactly zero")
+    if rng.random() < 0.2:
+        Lab = Lab.astype(rng.choice([bool, np.int8, np.uint8, np.int32, float]))  # 0/1 labels in another storage type
+        make_tables.special.append("labels stored as bool / int8 / uint8 / int32 / float")
     if rng.random() < 0.3:  # a legal memory layout: column-major tables (e.g. a transposed orders-by-slots array)
         Fn, Xi, Lab = np.asfortranarray(Fn), np.asfortranarray(Xi), np.asfortranarray(Lab)
     return Fn, Xi, Lab, mask
@@ -113,6 +128,8 @@ def run_tables(ctx, rng):
     from pyoma2.functions import plot as P_
 
     Fn, Xi, Lab, mask = make_tables(rng)
+    for st_ in make_tables.special:
+        ctx.state(st_)
     nr, no = Fn.shape
     step = int(rng.choice([1, 1, 2, 3]))
     hide = bool(rng.integers(0, 2))
